@@ -186,6 +186,7 @@ impl Property for C08 {
                 flag: "f0".into(),
                 code: 3,
                 partial: false,
+                direct: false,
             });
         }
         rules.push((
